@@ -3,7 +3,7 @@ of NodeLocationsForWays, regenerated from /repo's source on every run (clang typ
 strings, the printer of tools/props/c15.py) into lean/Osmium/Generated/C12Shape.lean.  Props/C12.lean compares them with
 the statement sequences Model/IndexMap.lean transcribes (`src_shape_*` theorems): a new data member, an early return in
 sort(), a condition around push_back, a constructor that initialises more than the vector, a statement missing from
-way() — each breaks a theorem by name.  Cached by the hash of the headers read + this file."""
+way() — each breaks a theorem by name.  Cached by the hash of /repo/include + this file + the printer."""
 import hashlib
 import json
 import os
@@ -111,11 +111,9 @@ def regen_shape(ctx, path=None):
     inc = os.path.join(vlib.REPO, 'include')
     h = hashlib.sha256()
     for rel in HEADERS:
-        try:
-            with open(os.path.join(inc, rel), 'rb') as f:
-                h.update(f.read())
-        except OSError as e:
-            return str(e)
+        if not os.path.exists(os.path.join(inc, rel)):
+            return 'missing header ' + rel
+    h.update(vlib.repo_tree_hash().encode())      # any header change: 1.5 s of clang
     for fn in (os.path.abspath(__file__), os.path.abspath(K.__file__)):
         with open(fn, 'rb') as f:
             h.update(f.read())
